@@ -911,6 +911,185 @@ def run_symbol(max_len):
     return n, failures, counters
 
 
+def history_models():
+    """keys -> (concrete model, family, per-symbol parameter row)"""
+    g = [(0.4, 1.3), (-1.2, 0.5)]
+    c = [[0.2, 0.5, 0.3], [0.6, 0.3, 0.1]]
+    ms = {}
+    for i, (mu, sd) in enumerate(g):
+        ms[("g", i)] = (M.QuantizedGaussian(-3, 3, mu, sd), "g", (mu, sd))
+    for i, t in enumerate(c):
+        ms[("c", i)] = (M.Categorical(np.array(t), perfect=False), "c", t)
+    fams = {"g": M.QuantizedGaussian(-3, 3), "c": M.Categorical(perfect=False)}
+    def params(f, keys):
+        if f == "g":
+            return (np.array([ms[k][2][0] for k in keys]), np.array([ms[k][2][1] for k in keys]))
+        return (np.array([ms[k][2] for k in keys], dtype=np.float64),)
+    return ms, fams, params
+
+
+def run_ans_histories(depth):
+    """C01 through the Python front end: every history of pushes (3 call forms), pops (3 call forms), reloads and
+    clones up to the given depth on AnsCoder, from the empty coder and from imported words; oracle: a Python list"""
+    ms, fams, params = history_models()
+    keys = list(ms)
+    failures = []
+    counters = {"py_ans_history_nodes": 0, "py_ans_history_pops": 0, "py_ans_history_reloads": 0, "py_ans_histories_drained": 0}
+    def fail(what, detail):
+        if len([f for f in failures if f["what"] == what]) < 3:
+            failures.append({"what": what, "detail": detail})
+    pushes = []
+    for k in keys:
+        for s_ in (0, 1):
+            pushes.append((f"push {s_} with {k}", "one", [s_], [k]))
+        pushes.append((f"push [0, 1, 1] iid with {k}", "iid", [0, 1, 1], [k, k, k]))
+    for f in ("g", "c"):
+        pushes.append((f"push [1, 0] with per-symbol parameters of family {f}", "par", [1, 0], [(f, 0), (f, 1)]))
+        pushes.append((f"push [2] with per-symbol parameters of family {f} (one row)", "par", [2], [(f, 1)]))
+    def apply_push(c, form, syms, ks):
+        if form == "one":
+            c.encode_reverse(syms[0], ms[ks[0]][0])
+        elif form == "iid":
+            c.encode_reverse(np.array(syms, dtype=np.int32), ms[ks[0]][0])
+        else:
+            c.encode_reverse(np.array(syms, dtype=np.int32), fams[ks[0][0]], *params(ks[0][0], ks))
+    def drain(c, ref, init, hist):
+        """pop everything one symbol at a time, then the words must be the initial ones"""
+        for (s_, k) in reversed(ref):
+            got = int(c.decode(ms[k][0]))
+            if got != s_:
+                fail("Python front end | AnsCoder | a pop does not return the most recent push", f"history {hist}: expected {s_} ({k}), got {got}")
+                return
+        w = c.get_compressed()
+        if not np.array_equal(w, init):
+            fail("Python front end | AnsCoder | after popping everything the words are not what they were before the pushes", f"history {hist}: {[hex(int(x)) for x in w]} vs {[hex(int(x)) for x in init]}")
+        counters["py_ans_histories_drained"] += 1
+    def rec(c, ref, init, hist, d):
+        counters["py_ans_history_nodes"] += 1
+        drain(c.clone(), ref, init, hist)
+        if d == 0 or len(failures) > 30:
+            return
+        for name, form, syms, ks in pushes:
+            c2 = c.clone()
+            apply_push(c2, form, syms, ks)
+            # an array is pushed in reverse: its first symbol ends up on top
+            rec(c2, ref + list(zip(reversed(syms), reversed(ks))), init, hist + [name], d - 1)
+        if ref:
+            s_, k = ref[-1]
+            c2 = c.clone()
+            got = int(c2.decode(ms[k][0]))
+            counters["py_ans_history_pops"] += 1
+            if got != s_:
+                fail("Python front end | AnsCoder.decode(model) | does not return the most recent push", f"history {hist}: expected {s_}, got {got}")
+            else:
+                rec(c2, ref[:-1], init, hist + ["pop one"], d - 1)
+        if len(ref) >= 2 and ref[-1][1] == ref[-2][1]:
+            c2 = c.clone()
+            got = [int(x) for x in c2.decode(ms[ref[-1][1]][0], 2)]
+            counters["py_ans_history_pops"] += 1
+            if got != [ref[-1][0], ref[-2][0]]:
+                fail("Python front end | AnsCoder.decode(model, 2) | does not return the two most recent pushes, most recent first", f"history {hist}: expected {[ref[-1][0], ref[-2][0]]}, got {got}")
+            else:
+                rec(c2, ref[:-2], init, hist + ["pop 2 iid"], d - 1)
+        if len(ref) >= 2 and ref[-1][1][0] == ref[-2][1][0]:
+            f = ref[-1][1][0]
+            c2 = c.clone()
+            got = [int(x) for x in c2.decode(fams[f], *params(f, [ref[-1][1], ref[-2][1]]))]
+            counters["py_ans_history_pops"] += 1
+            if got != [ref[-1][0], ref[-2][0]]:
+                fail("Python front end | AnsCoder.decode(family, parameter arrays) | does not return the two most recent pushes with their own models", f"history {hist}: expected {[ref[-1][0], ref[-2][0]]}, got {got}")
+            else:
+                rec(c2, ref[:-2], init, hist + ["pop 2 with parameters"], d - 1)
+        if hist and hist[-1] != "reload":
+            w = c.get_compressed()
+            counters["py_ans_history_reloads"] += 1
+            try:
+                c2 = ANS(w) if len(w) else ANS()
+            except BaseException as e:
+                fail("Python front end | AnsCoder(get_compressed()) | exported words are refused", f"history {hist}: {e}")
+                return
+            rec(c2, ref, init, hist + ["reload"], d - 1)
+    with Quiet():
+        for init in ([], [0x12345678, 0x9abcdef1], [1], [0xffffffff, 0xffffffff, 0xffffffff]):
+            init = np.array(init, dtype=np.uint32)
+            try:
+                rec(ANS(init) if len(init) else ANS(), [], init, [f"start from {[hex(int(x)) for x in init]}"], depth)
+            except BaseException as e:
+                fail("Python front end | AnsCoder | a valid history raises", f"{type(e).__name__}: {str(e)[:160]}")
+    return counters["py_ans_history_nodes"], failures, counters
+
+
+def run_range_histories(depth):
+    """C02 through the Python front end: every sequence of encode calls (3 call forms) up to the given depth; at every
+    node the words are decoded through get_decoder() and RangeDecoder(get_compressed()) in the call forms of the
+    encoder and one symbol at a time"""
+    ms, fams, params = history_models()
+    keys = list(ms)
+    failures = []
+    counters = {"py_range_history_nodes": 0, "py_range_history_decodes": 0}
+    def fail(what, detail):
+        if len([f for f in failures if f["what"] == what]) < 3:
+            failures.append({"what": what, "detail": detail})
+    steps = []
+    for k in keys:
+        for s_ in (0, 1):
+            steps.append((f"encode {s_} with {k}", "one", [s_], [k]))
+        steps.append((f"encode [0, 1, 1] iid with {k}", "iid", [0, 1, 1], [k, k, k]))
+    for f in ("g", "c"):
+        steps.append((f"encode [1, 0] with per-symbol parameters of family {f}", "par", [1, 0], [(f, 0), (f, 1)]))
+        steps.append((f"encode [2] with per-symbol parameters of family {f} (one row)", "par", [2], [(f, 1)]))
+        steps.append((f"encode [] with per-symbol parameters of family {f} (no rows)", "par", [], []))
+    steps.append(("encode [] iid", "iid", [], [keys[0]]))
+    def check(enc, segs, hist):
+        msg = [(s_, k) for (_, syms, ks) in segs for s_, k in zip(syms, ks)]
+        for dname, dec in (("get_decoder()", enc.get_decoder()), ("RangeDecoder(get_compressed())", RDEC(enc.get_compressed()))):
+            counters["py_range_history_decodes"] += 1
+            try:
+                got = [int(dec.decode(ms[k][0])) for (_, k) in msg]
+            except BaseException as e:
+                got = repr(e)
+            if got != [s_ for s_, _ in msg]:
+                fail(f"Python front end | RangeEncoder -> {dname} | decoding one symbol at a time does not give the message", f"history {hist}: {got}")
+        dec = RDEC(enc.get_compressed())
+        got = []
+        try:
+            for form, syms, ks in segs:
+                if form == "one":
+                    got.append(int(dec.decode(ms[ks[0]][0])))
+                elif form == "iid":
+                    got += [int(x) for x in dec.decode(ms[ks[0]][0], len(syms))]
+                elif len(ks):
+                    got += [int(x) for x in dec.decode(fams[ks[0][0]], *params(ks[0][0], ks))]
+        except BaseException as e:
+            got = repr(e)
+        counters["py_range_history_decodes"] += 1
+        if got != [s_ for s_, _ in msg]:
+            fail("Python front end | RangeEncoder -> RangeDecoder | decoding in the call forms of the encoder does not give the message", f"history {hist}: {got}")
+    def rec(enc, segs, hist, d):
+        counters["py_range_history_nodes"] += 1
+        check(enc, segs, hist)
+        if d == 0 or len(failures) > 30:
+            return
+        for name, form, syms, ks in steps:
+            e2 = enc.clone()
+            try:
+                if form == "one":
+                    e2.encode(syms[0], ms[ks[0]][0])
+                elif form == "iid":
+                    e2.encode(np.array(syms, dtype=np.int32), ms[ks[0]][0])
+                else:
+                    f = ks[0][0] if ks else name.split("family ")[1][0]
+                    pr = params(f, ks) if ks else ((np.zeros(0), np.zeros(0)) if f == "g" else (np.zeros((0, 3)),))
+                    e2.encode(np.array(syms, dtype=np.int32), fams[f], *pr)
+            except BaseException as e:
+                fail("Python front end | RangeEncoder.encode | a valid call raises", f"history {hist + [name]}: {type(e).__name__}: {str(e)[:120]}")
+                continue
+            rec(e2, segs + [(form, syms, ks)], hist + [name], d - 1)
+    with Quiet():
+        rec(RENC(), [], [], depth)
+    return counters["py_range_history_nodes"], failures, counters
+
+
 def main():
     cmd = sys.argv[1]
     if cmd == "vectors":
@@ -930,6 +1109,10 @@ def main():
         n, f, c = run_bitsback(int(sys.argv[2]))
     elif cmd == "chain":
         n, f, c = run_chain(int(sys.argv[2]))
+    elif cmd == "ans_histories":
+        n, f, c = run_ans_histories(int(sys.argv[2]))
+    elif cmd == "range_histories":
+        n, f, c = run_range_histories(int(sys.argv[2]))
     elif cmd == "seek":
         n, f, c = run_seek(int(sys.argv[2]))
     elif cmd == "impossible":
